@@ -214,6 +214,8 @@ class Ref:
             yield self.const(e.n, ctxw), st; return
         if isinstance(e, Var):
             k, key, ty = self.scope_lookup(st, e.name, fn)
+            if k == 'glob' and e.name in getattr(self.P, 'inits', {}):      # a named constant denotes its value
+                yield Val(K(self.P.inits[e.name], W[ty]), ty), st; return
             if isinstance(ty, tuple):       # array name decays to its address
                 yield Val(K(self.addr_of(e.name), 16), 'u16'), st; return
             if ty == 'ptr':
